@@ -229,8 +229,7 @@ PROPOSED_KNOWN = {
     "C08.hidden:no-invalid-regexp:visit_new_expr": "no-invalid-regexp: visit_new_expr does not recurse; an invalid RegExp inside the arguments of any `new` is not reported, e.g. new F(new RegExp(\"[\"))",
     "C08.hidden:valid-typeof:visit_bin_expr": "valid-typeof: visit_bin_expr does not recurse; a typeof comparison that is an operand of another binary/logical expression is not reported, e.g. p && typeof foo === \"strnig\"",
     "C08.hidden:single-var-declarator:visit_var_decl": "single-var-declarator: visit_var_decl does not recurse; a multi-declarator declaration inside the initialiser of another declaration is not reported",
-    "C08.hidden:no-empty-pattern:visit_object_pat_prop": "no-empty-pattern: the pattern visitors descend only into nested patterns; an empty pattern inside the default value of an object-pattern property is not reported",
-    "C08.hidden:no-empty-pattern:visit_object_pat": "no-empty-pattern: visit_object_pat does not visit defaults/computed keys of its properties",
+    "C08.hidden:no-empty-pattern:visit_object_pat": "no-empty-pattern: visit_object_pat (and visit_object_pat_prop beneath it) descend only into nested patterns; an empty pattern inside the default value of an object-pattern property is not reported",
     "C08.hidden:no-empty-pattern:visit_array_pat": "no-empty-pattern: visit_array_pat descends only into nested patterns; an empty pattern inside an array-pattern default is not reported",
     "C08.hidden:no-redeclare:visit_var_declarator": "no-redeclare: visit_var_declarator does not recurse; redeclarations inside a function in a variable initialiser are not reported",
     "C08.hidden:no-redeclare:visit_param": "no-redeclare: visit_param does not recurse; redeclarations inside a function in a parameter default are not reported",
@@ -238,6 +237,15 @@ PROPOSED_KNOWN = {
     "C08.hidden:require-yield:visit_yield_expr": "require-yield: visit_yield_expr does not recurse; a generator without yield inside the argument of a yield is not reported",
     "C08.hidden:no-inferrable-types:visit_class_prop": "no-inferrable-types: visit_class_prop returns before recursing for readonly/optional properties; inferrable annotations inside their initialisers are not reported",
     "C08.hidden:no-inferrable-types:visit_private_prop": "no-inferrable-types: visit_private_prop returns before recursing for readonly/optional properties",
+    # dependency (deno_ast 0.46 scopes.rs): the scope analysis is a Visit whose visit_param does not recurse, so bindings declared
+    # inside a function in a parameter default of a `function` are unknown to every rule that consults the scope
+    "C08.hidden:no-class-assign:scope-analysis.visit_param": "deno_ast scope analysis (scopes.rs visit_param) does not descend into parameter defaults of `function`s: no-class-assign misses `function (p = () => { class A {} A = 0; }) {}`",
+    "C08.hidden:no-const-assign:scope-analysis.visit_param": "deno_ast scope analysis (scopes.rs visit_param) does not descend into parameter defaults of `function`s: no-const-assign misses `function (p = () => { const c = 0; c = 1; }) {}`",
+    "C08.hidden:no-ex-assign:scope-analysis.visit_param": "deno_ast scope analysis (scopes.rs visit_param) does not descend into parameter defaults of `function`s: no-ex-assign misses a catch parameter assignment there",
+    "C08.hidden:no-func-assign:scope-analysis.visit_param": "deno_ast scope analysis (scopes.rs visit_param) does not descend into parameter defaults of `function`s: no-func-assign misses `function (p = () => { function f() {} f = 0; }) {}`",
+    # the control-flow analysis (src/control_flow/mod.rs visit_switch_case) never visits the TEST of a switch case, so a getter
+    # there has no metadata and getter-return unwraps None
+    "C08.panic:getter-return:src/rules/getter_return.rs:133": "getter-return panics (unwrap of missing control-flow metadata) for a getter inside the test expression of a switch case: `switch (w) { case ({ get a() {} }): }` -- the control-flow analysis does not visit case tests",
 }
 
 
@@ -330,21 +338,29 @@ def compare(expected, got):
 
 
 def non_recursing_by_rule(table):
-    d = collections.defaultdict(set)
+    """rule -> {visit method on a spine: label in the class}: the rule's own non-recursing overrides, and those of the
+    whole-program analyses (control flow, scope) the rule consults."""
+    d = collections.defaultdict(dict)
     for r in table["visit_table"]:
-        if r["cls"] == "none":
-            d[r["rule"]].add(r["method"])
+        if r["cls"] == "none" and r["rule"] not in table["analysis_consumers"]:
+            d[r["rule"]][r["method"]] = r["method"]
+    for a, rules in table["analysis_consumers"].items():
+        for r in table["visit_table"]:
+            if r["rule"] == a and r["cls"] == "none":
+                for rule in rules:
+                    d[rule].setdefault(r["method"], a + "." + r["method"])
     return d
 
 
 def attribute(rule, chain, single_status, nonrec):
     """class suffix for a hidden report: the override of the generated table that sits on the spine of the first
     context of the chain which hides the construct on its own; else the context kind."""
-    culprits = [k for k in chain if single_status.get(k) == "hidden"] or [k for k in chain if set(CTX[k][5]) & nonrec.get(rule, set())]
+    nr = nonrec.get(rule, {})
+    culprits = [k for k in chain if single_status.get(k) == "hidden"] or [k for k in chain if set(CTX[k][5]) & set(nr)]
     for k in culprits:
         for m in CTX[k][5]:
-            if m in nonrec.get(rule, set()):
-                return m, k
+            if m in nr:
+                return nr[m], k
     if culprits:
         return "under-" + culprits[0], culprits[0]
     return "under-" + chain[-1], chain[-1]
